@@ -38,7 +38,7 @@ func repoRoot() string {
 // packages on the output path (property C08 anchors + what they call for formatting)
 var c08Pkgs = []string{"profile", "internal/graph", "internal/report", "internal/driver", "internal/measurement"}
 
-func coqStr(s string) string { return Render(S(s))[3:] }
+func c08CoqStr(s string) string { return Render(S(s))[3:] }
 
 func die(format string, a ...interface{}) {
 	fmt.Fprintf(os.Stderr, format+"\n", a...)
@@ -598,7 +598,7 @@ func cmpscanMain(args []string) {
 		if i > 0 {
 			sb.WriteString(";\n")
 		}
-		fmt.Fprintf(&sb, "  (%s, %s, [", coqStr(ch.name), ch.carrier)
+		fmt.Fprintf(&sb, "  (%s, %s, [", c08CoqStr(ch.name), ch.carrier)
 		for j, s := range ch.steps {
 			if j > 0 {
 				sb.WriteString(";\n     ")
@@ -607,7 +607,7 @@ func cmpscanMain(args []string) {
 			if s.desc {
 				d = "Desc"
 			}
-			fmt.Fprintf(&sb, "{| guard := %s; decide := %s; sdir := %s |}", coqStr(s.guard), coqStr(s.decide), d)
+			fmt.Fprintf(&sb, "{| guard := %s; decide := %s; sdir := %s |}", c08CoqStr(s.guard), c08CoqStr(s.decide), d)
 		}
 		sb.WriteString("])")
 	}
@@ -616,7 +616,7 @@ func cmpscanMain(args []string) {
 		if i > 0 {
 			sb.WriteString(";\n")
 		}
-		fmt.Fprintf(&sb, "  (%s, %s, %s)", coqStr(s.file), coqStr(s.fn), coqStr(s.call))
+		fmt.Fprintf(&sb, "  (%s, %s, %s)", c08CoqStr(s.file), c08CoqStr(s.fn), c08CoqStr(s.call))
 	}
 	sb.WriteString("].\n")
 	writeOut(args, sb.String())
